@@ -33,8 +33,14 @@ ASSUMPTIONS = [
     "cache key injective (C09), restore exact (C06), atomic per-target steps",
 ]
 
-FAMILIES_QUICK = [("edits", 6), ("wipe", 9), ("dirs", 4), ("alias", 5), ("nocache", 6), ("tamper", 4), ("disabled", 3), ("taint", 3)]
+FAMILIES_QUICK = [("edits", 5), ("wipe", 8), ("lostblob", 6), ("dirs", 4), ("alias", 5), ("nocache", 6), ("tamper", 3), ("disabled", 3), ("taint", 3)]
 FAMILIES_THOROUGH = [(f, n * 15) for f, n in FAMILIES_QUICK]
+
+
+def lost_owners(h, ws):
+    """targets owning an output whose CAS blob a `drop` step of the history removed"""
+    paths = {s["path"] for s in h["steps"] if s["k"] == "drop"}
+    return {l for l, t in ws["targets"].items() for o in H.all_outs(t) if H.out_path(t, o) in paths}
 
 
 def run(ctx):
@@ -76,9 +82,13 @@ def run(ctx):
                     "all": {"ok": o_all["ok"], "executed": o_all["executed"]}, "minimal": {"ok": om["ok"], "executed": om["executed"]}}
             if om["ok"] != o_all["ok"]:
                 return ("a build succeeds under one load_outputs mode and fails under the other", base, "verdict-differs")
-            if set(om["executed"]) != set(o_all["executed"]):
+            # a target whose blob was lost is irretrievable: mode all re-executes it when it reaches it, minimal only when an
+            # executing direct dependant needs its outputs — that difference is the purpose of minimal, not a defect
+            lost = lost_owners(h, ws)
+            ex_all = [x for x in o_all["executed"] if x not in lost or x in om["executed"]]
+            if set(om["executed"]) != set(ex_all):
                 return ("the two load_outputs modes execute different sets of commands", base, "executed-set-differs")
-            if sorted(om["executed"]) != sorted(o_all["executed"]):
+            if sorted(om["executed"]) != sorted(ex_all):
                 return ("minimal mode executes a command more often than mode all", base, "executed-multiset-differs")
             for l in set(om["executed"]):
                 t = ws["targets"].get(l)
